@@ -43,6 +43,34 @@ PROPS = {
         "assumptions": ["templates were validated on the pinned tree; comment blocks adjacent to an ignore-marked comment, Typst strings, "
                         "JSDoc tags are 'don't care'"],
     },
+    "C05": {
+        "level": "exploration",
+        "steps": [("hv", "C05", {"_scale": 4.0}), ("hv", "C05", {"mode": "threads", "_jobs": 2, "_tag": "C05threads"}), ("py", "c05proc", "run")],
+        "rule": "histories of (set/unset rule | lint(doc, plain|markdown)) on one long-lived LintGroup or harper_wasm::Linter, documents assembled from a small clause pool so "
+                "that the chunk cache and the word cache are hit constantly (hook counters prove it), each step compared with a freshly built linter of the same configuration; the "
+                "same documents on 16 threads in different orders and one linter moved across threads vs a single-thread run; two processes byte-for-byte; thorough adds an "
+                "eviction run (12 000 distinct chunks) and the TSan build; non-trivial = history with >= 1 chunk-cache hit; distinct = history seed",
+        "assumptions": ["hash collisions in the cache key (2^-64) ignored", "only caches reachable through LintGroup / harper_wasm::Linter"],
+    },
+    "C06": {
+        "level": "exploration",
+        "steps": [("hv", "C06", {})],
+        "rule": "exhaustive pass: every spelling of an independent expansion of dictionary.dict + affixes.json (read from the current tree, reconciled with the implementation's "
+                "word set) x 4 dialects, alone, plus Capitalised/UPPER forms of lower-case entries and sentence frames (sampled); dialect-tagged words under the other dialects; "
+                "non-words (random letter strings, edit-distance-1 mutants) must be flagged at their exact span; every suggestion must be a listed word of the active dialect; "
+                "distinct = hash(document, dialect)",
+        "assumptions": ["dialect tags are read from the implementation's metadata (the statement does not say how they arise)", "words that lex into several tokens are skipped (counted)"],
+        "exhaustive_part": "every spelling the reference expansion derives (~132 k) x 4 dialects, as a one-word document",
+    },
+    "C11": {
+        "level": "exploration",
+        "steps": [("hv", "C11", {"_scale": 4.0})],
+        "rule": "(A) configuration algebra on random {on, off, unset, null, unknown-key} assignments: overlay law through fill_with_curated / merge_from / set_rule_enabled_if_unset, merge "
+                "order, JSON round trip; (B) documents of 2-3 rule sentences: lints of every single rule computed once, then random configurations compared with the multiset sum of "
+                "the enabled singles, random 2-partitions, rule attribution through hook H1 (nothing disabled runs), unknown keys, and the JS-facing overlay path; "
+                "non-trivial = document on which >= 2 rules fire; distinct = hash(document, enabled set)",
+        "assumptions": ["multiset comparison (no order across rules is promised)"],
+    },
     "C12": {
         "level": "exploration",
         "steps": [("hv", "C12", {})],
@@ -50,6 +78,33 @@ PROPS = {
                 "D = arbitrary further text; compare lints(P++D) with lints(P) + shift(lints(D), |P|) as multisets, all rules on, fresh linter per call; "
                 "non-trivial = P has >= 1 lint and D is non-empty; distinct = hash(P, D)",
         "assumptions": ["multiset comparison: the statement fixes no order across rules", "cache effects are excluded here (fresh linter per call); they belong to C05"],
+    },
+    "C14": {
+        "level": "exploration",
+        "steps": [("hv", "C14", {"_scale": 6.0})],
+        "rule": "documents built from a pool of flagged clauses with twins (same flagged word, different neighbours), plain and Markdown; random subsets ignored through IgnoredLints; "
+                "checks: ignored lint gone, every lint observably different from all ignored ones survives, export/import equivalence, and edits >= 8 characters away (prepend / append "
+                "paragraph, quoted paragraph, inserted words) keep it ignored; non-trivial = document with >= 2 lints; distinct = hash(document, chosen subset)",
+        "assumptions": ["identity of a lint = kind, message, suggestions, flagged text, tokens within two characters before/after (from the statement)"],
+    },
+    "C15": {
+        "level": "exploration",
+        "steps": [("hv", "C15", {})],
+        "rule": "small families exhaustively: words of length 1..2 over {a,b,B,'}, dictionaries of <= 3 words, all queries of length 0..3, bounds 0..3, caps {1,2,100}, on the mutable, FST "
+                "and two merged back-ends (agreement of every query API incl. *_str variants, union semantics of two-part merges, fuzzy results: real word, true Levenshtein distance by "
+                "an independent usize Wagner-Fischer, bound, order, cap, completeness for lower-case queries); all string pairs of length <= 4 for the distance routine; sampled "
+                "queries on the curated dictionary (re-cased, edited, apostrophe, non-ASCII, empty, 60-300 chars); distinct = hash(query, bound, cap, back-end, dictionary)",
+        "assumptions": ["a dictionary's content is what the mutable back-end holds after insertion (case twins share one entry)"],
+        "exhaustive_part": "thorough tier: the whole small family; quick tier: 1- and 2-word dictionaries fully, 3-word dictionaries 1/7, (bound, cap) grid 1/3",
+    },
+    "C16": {
+        "level": "exploration",
+        "steps": [("hv", "C16", {"_scale": 6.0})],
+        "rule": "call histories on harper_wasm::Linter (30 calls each): lint (plain / Markdown, 4 dialects, rule sentences, clauses, hostile Unicode) with per-result invariants "
+                "(inside text, pairwise disjoint, problem text == characters at span, JSON round trips of Lint/Span/Suggestion), apply_suggestion vs reference splice, ignore_lint "
+                "(gone, nothing distinguishable removed, nothing added) + export/clear/import, import_words/export_words, set_lint_config_from_json; "
+                "non-trivial = lint call returning >= 1 lint; distinct = hash(text, #lints)",
+        "assumptions": ["JsValue-returning methods cannot be called natively and are out of reach"],
     },
     "C17": {
         "level": "exploration",
@@ -75,6 +130,15 @@ PROPS = {
                 "(b) every lint list of the C01 document stream; clauses: output is a sub-multiset, kept lints pairwise disjoint, each "
                 "dropped lint starts inside a kept one; then fixes applied back to front == any order with offset bookkeeping; "
                 "non-trivial = list where something was dropped; distinct = hash(relative span pattern)",
+        "assumptions": [],
+    },
+    "C19": {
+        "level": "exploration",
+        "steps": [("hv", "C19", {"_scale": 5.0})],
+        "rule": "record lists produced by the real producer (RecordKind::from_lint on documents with newlines, quotes, control, LS/PS and astral characters, extreme numbers) and "
+                "configuration-update records, in 1-4 append batches through Stats::write (memory and a file opened in append mode) and through the JS API "
+                "(generate_stats_file / import_stats_file); checks read(write(R1)++write(R2)) == R1++R2, one line per record, summarize counts each lint record once; "
+                "non-trivial = >= 2 records; distinct = history seed",
         "assumptions": [],
     },
 }
@@ -117,6 +181,81 @@ META = {
                       "string, URL, math, tag and ignore-marked segments with multi-byte content; every prose word must come back as a Word token at its exact offset, nothing lintable may touch non-prose.",
         "level_note": "Trusted: the generators' own bookkeeping of offsets. Constructs the statement does not speak about are 'optional' (neither required nor forbidden).",
     },
+    "C05": {
+        "engine": "E1-hv (hooks H1/H2; TSan build in thorough)",
+        "design_ref": "DESIGN.md §5 C05",
+        "technique": "runtime monitoring: step-wise differential of a long-lived linter against a fresh one over cache-hammering histories; thread and process repetition; ThreadSanitizer in thorough",
+        "level_text": "Exploration of histories and schedules: ~1000 histories x 60 steps per quick run on LintGroup and on the JS-facing linter (one instance serving plain text and Markdown), "
+                      "every step compared with a freshly built linter; hook counters show the caches were really hit; 16 threads x 600 documents in different orders; two processes compared byte for byte.",
+        "level_note": "Trusted: a fresh LintGroup as the reference for 'what the lints should be'. Cache-key collisions are out of reach.",
+    },
+    "C06": {
+        "engine": "E1-hv",
+        "design_ref": "DESIGN.md §5 C06",
+        "technique": "runtime monitoring: exhaustive dictionary pass against an independent affix-expansion reference; non-word and suggestion oracles on the real spell checker",
+        "level_text": "Exploration with an exhaustive pass: all ~132 k spellings x 4 dialects are linted (no spelling lint allowed), case variants and sentence frames sampled, tens of thousands "
+                      "of non-words must be flagged at their exact span, and every suggestion seen (~50 k) must be a listed word of the active dialect.",
+        "level_note": "Trusted: the 150-line reference expansion (reconciled with the implementation's word set on every run: a difference in either direction is itself a finding).",
+    },
+    "C11": {
+        "engine": "E1-hv (hook H1)",
+        "design_ref": "DESIGN.md §5 C11",
+        "technique": "runtime monitoring: singles-vs-combination multiset law, overlay/merge algebra, rule attribution through a hook, JS-facing overlay path",
+        "level_text": "Exploration over configurations: thousands of random {on, off, unset, null, unknown} assignments for the algebraic laws, and ~1000 documents x 24 configurations for the law "
+                      "lints(cfg) = multiset sum of the enabled rules' own lints, with hook H1 proving that nothing disabled is executed.",
+        "level_note": "Trusted: each rule's single-rule output as the definition of 'what the rule produces on its own'.",
+    },
+    "C12": {
+        "engine": "E1-hv",
+        "design_ref": "DESIGN.md §5 C12",
+        "technique": "runtime monitoring: metamorphic paragraph-split relation over generated (P, D) pairs with all rules on",
+        "level_text": "Exploration: 60 k (quick) / 3 M (thorough) pairs; lints(P++D) must equal lints(P) + shift(lints(D)) as multisets, fresh linter per call.",
+        "level_note": "Trusted: nothing but the relation itself; P is generated to contain condensing events, URLs, e-mails, numbers at its end, D to start with digits / @ / : / quotes.",
+    },
+    "C14": {
+        "engine": "E1-hv",
+        "design_ref": "DESIGN.md §5 C14",
+        "technique": "runtime monitoring: ignore-list model with observable lint identity; edit histories; export/import equivalence",
+        "level_text": "Exploration of histories: ~15 k documents (quick) with twin lints, random ignore subsets, five kinds of distant edits each; every disappearance must be explained by "
+                      "indistinguishability from an ignored lint, every reappearance is a violation.",
+        "level_note": "Trusted: the identity model (kind, message, suggestions, flagged text, tokens within two characters) taken from the statement.",
+    },
+    "C15": {
+        "engine": "E1-hv (+Miri-free: the distance routine is private; reached through a one-word dictionary)",
+        "design_ref": "DESIGN.md §5 C15",
+        "technique": "runtime monitoring: cross-back-end agreement and brute-force Levenshtein reference over exhaustive small dictionary families plus sampled curated queries",
+        "level_text": "Exploration with exhaustive small families: every query API on four back-ends for all dictionaries of <= 3 short words x all queries of length <= 3 x bounds x caps "
+                      "(thorough; quick samples the 3-word dictionaries), all string pairs of length <= 4 for the distance routine, and thousands of hostile queries on the 130 k-word curated dictionary.",
+        "level_note": "Trusted: a 12-line usize Wagner-Fischer.",
+    },
+    "C16": {
+        "engine": "E1-hv (harper-wasm linked natively as rlib)",
+        "design_ref": "DESIGN.md §5 C16",
+        "technique": "runtime monitoring: call-history monitor on harper_wasm::Linter with per-call invariants and reference splice",
+        "level_text": "Exploration of call histories: ~1300 histories x 30 calls per quick run over both languages and four dialects.",
+        "level_note": "Trusted: the String-based API behaves natively as under wasm32 (same Rust code, no JS glue); JsValue methods are not reachable.",
+    },
+    "C17": {
+        "engine": "E1-hv",
+        "design_ref": "DESIGN.md §5 C17",
+        "technique": "runtime monitoring: integer-arithmetic ordinal reference over an exhaustive range and stratified random integers",
+        "level_text": "Exploration with an exhaustive range: n = 0..100 000 x 4 suffixes x 4 letter cases (+ sentence frames) completely, and 1 M (quick) / 100 M (thorough) random n < 2^53.",
+        "level_note": "Trusted: the three-line ordinal rule.",
+    },
+    "C18": {
+        "engine": "E1-hv",
+        "design_ref": "DESIGN.md §5 C18",
+        "technique": "runtime monitoring: length / case-only / first-letter / idempotence monitor on make_title_case_str and the JS to_title_case",
+        "level_text": "Exploration: ~160 k single-paragraph texts per quick run (rule sentences with variants, clauses, hostile Unicode).",
+        "level_note": "Trusted: Unicode case folding of std for 'differs only in case'.",
+    },
+    "C19": {
+        "engine": "E1-hv (E2 sessions in thorough)",
+        "design_ref": "DESIGN.md §5 C19",
+        "technique": "runtime monitoring: round-trip and append-composition monitor on records made by the real producer, in memory, through an append-mode file and through the JS API",
+        "level_text": "Exploration of inputs and append histories: ~30 k record lists per quick run.",
+        "level_note": "Trusted: Record's derived PartialEq as the meaning of 'the same records'.",
+    },
     "C13": {
         "engine": "E1-hv (+Miri shard in thorough)",
         "design_ref": "DESIGN.md §5 C13",
@@ -128,18 +267,8 @@ META = {
 }
 
 NOT_CLAIMED = {
-    "C05": "check not built yet (work in progress in this session)",
-    "C06": "check not built yet (work in progress in this session)",
     "C07": "check not built yet (work in progress in this session)",
     "C08": "check not built yet (work in progress in this session)",
     "C09": "check not built yet (work in progress in this session)",
     "C10": "check not built yet (work in progress in this session)",
-    "C11": "check not built yet (work in progress in this session)",
-    "C12": "check not built yet (work in progress in this session)",
-    "C14": "check not built yet (work in progress in this session)",
-    "C15": "check not built yet (work in progress in this session)",
-    "C16": "check not built yet (work in progress in this session)",
-    "C17": "check not built yet (work in progress in this session)",
-    "C18": "check not built yet (work in progress in this session)",
-    "C19": "check not built yet (work in progress in this session)",
 }
